@@ -57,6 +57,16 @@ def handmade():
     ts = cd(1) + [("PUSHL", "h"), "JUMPI", ("PUSH", 7), ("PUSH", hk, 32), "SSTORE"] + mp(2, cd(0)) + [
         "SLOAD", ("PUSH", 7), "EQ", ("PUSHL", "bad"), "JUMPI", "STOP", ("LABEL", "h")] + mp(2, [("PUSH", 5)]) + ["POP", "STOP", ("LABEL", "bad")] + e2e.panic(1)
     out.append(("hashsib", e2e.Spec("HashSib", fns=[("check_s(uint256,uint256)", ts), ("check_t(uint256,uint256)", ts)]), ()))
+    # (3b) two tests sign the same (key, digest): the signature constraints must be available in both
+    def sign_test():
+        it = e2e.call_cheat("sign(uint256,bytes32)", [cd(0), cd(1)], ret_words=3) + ["POP"]
+        it += cd(1) + [("PUSH", 0x200), "MSTORE", ("PUSH", 0x80), "MLOAD", ("PUSH", 0x220), "MSTORE", ("PUSH", 0xA0), "MLOAD", ("PUSH", 0x240), "MSTORE",
+                      ("PUSH", 0xC0), "MLOAD", ("PUSH", 0x260), "MSTORE", ("PUSH", 32), ("PUSH", 0x300), ("PUSH", 128), ("PUSH", 0x200), ("PUSH", 1),
+                      "GAS", "STATICCALL", "POP"]
+        it += e2e.call_cheat("addr(uint256)", [cd(0)], ret_words=1) + ["POP", ("PUSH", 0x80), "MLOAD", ("PUSH", 0x300), "MLOAD", "EQ", ("PUSHL", "ok"), "JUMPI"]
+        return it + e2e.panic(1) + [("LABEL", "ok"), "STOP"]
+
+    out.append(("signpair", e2e.Spec("SignPair", fns=[("check_a(uint256,bytes32)", sign_test()), ("check_b(uint256,bytes32)", sign_test())]), ()))
     # (4) state written by one test must not be visible to the next (storage, transient storage, balance)
     tw = [("PUSH", 5), ("PUSH", 3), "SSTORE", ("PUSH", 5), ("PUSH", 3), "TSTORE", "STOP"]
     tr = [("PUSH", 3), "SLOAD", ("PUSH", 3), "TLOAD", "ADD", ("PUSHL", "bad"), "JUMPI", "STOP", ("LABEL", "bad")] + e2e.panic(1)
@@ -334,16 +344,16 @@ def cross_contract(run):
     """two different build outputs in one process (singletons must not leak): each contract's results in the sequence
     A, B, A, B equal its results in a fresh process"""
     hm = handmade()
-    base = common.parallel_map(_baseline, [4, 5], 2)  # forked children: pristine singletons
+    base = common.parallel_map(_baseline, [5, 6], 2)  # forked children: pristine singletons
     if any(isinstance(b, tuple) and b and b[0] == "error" for b in base):
         run.inconc("cross-contract", "baseline", "baseline worker failed")
         return
-    seq = [4, 5, 4, 5]
+    seq = [5, 6, 5, 6]
     for pos, idx in enumerate(seq):
         nm, sp, oth = hm[idx]
         tests = [s for s in sp.sigs() if s.startswith("invariant_")]
         res, _, o = observe(sp, oth, tests, invariant_depth=2)
-        b = base[idx - 4]
+        b = base[idx - 5]
         for t in tests:
             ident = f"{nm}:{t} as run #{pos + 1} of the sequence invpair,invab,invpair,invab in one process"
             if t not in b:
